@@ -280,6 +280,12 @@ func c18Transformer(r *fw.Rand, combo int, cache map[int]*c18Tr) *c18Tr {
 		// two types share one context: it must be listed once
 		t.keyCtx[gen.TEd2018] = t.keyCtx[gen.TEd2020]
 		opts = append(opts, didtransformer.WithKeyContext(t.keyCtx))
+	} else if combo&8 != 0 {
+		// an option that names no contexts leaves the defaults in force
+		opts = append(opts, didtransformer.WithKeyContext(fw.Pick(r, []map[string]string{nil, {}})))
+	}
+	if !withMethodCtx && combo&16 != 0 {
+		opts = append(opts, didtransformer.WithMethodContext(fw.Pick(r, [][]string{nil, {}})))
 	}
 	t.tr = didtransformer.New(opts...)
 	cache[combo] = t
